@@ -107,6 +107,17 @@ fn representable(enc: &'static Encoding, text: &str) -> bool {
     }
 }
 
+/// As `representable`, for a text that follows an explicit BOM: it may itself start with U+FEFF.
+fn representable_after_bom(enc: &'static Encoding, text: &str) -> bool {
+    match encode(enc, text) {
+        None => false,
+        Some(b) => {
+            let (d, bad) = enc.decode_without_bom_handling(&b);
+            !bad && d == text
+        }
+    }
+}
+
 fn find_malformed(enc: &'static Encoding) -> Option<Vec<u8>> {
     let candidates: [&[u8]; 12] = [
         &[b'a', 0xFF, b'b'],
@@ -224,7 +235,7 @@ impl Prop for C17Prop {
                 3 => scn.text = format!("//{c}first line is a comment\n{}", scn.text),
                 4 => scn.text = scn.text.trim_end().to_string(), // no final line break
                 5 => scn.text = scn.text.replace('\n', "\r\n"),
-                6 if scn.bom != "none" && representable(enc, "\u{feff}") => {
+                6 if scn.bom != "none" && representable_after_bom(enc, "\u{feff}") => {
                     // doubled BOM: the second U+FEFF is the first character of the text
                     scn.text = format!("{}{}", '\u{feff}', scn.text);
                 }
@@ -235,7 +246,8 @@ impl Prop for C17Prop {
                 9 => scn.text = format!("{}{}", scn.text, scn.text.repeat(t.below(30) as usize)),
                 _ => {}
             }
-            if !representable(enc, &scn.text) {
+            let ok = if scn.bom != "none" { representable_after_bom(enc, &scn.text) } else { representable(enc, &scn.text) };
+            if !ok {
                 return None;
             }
         }
@@ -387,6 +399,9 @@ impl Prop for C17Prop {
         }
         ctx.class(&format!("enc:{}", enc.name()));
         ctx.class(&format!("bom:{}", scn.bom));
+        ctx.class_if(scn.text.starts_with('\u{feff}'), "text-starts-with-U+FEFF-after-BOM");
+        ctx.class_if(scn.text.is_empty(), "empty-text");
+        ctx.class_if(scn.text.len() > 2000, "text>2000-bytes");
         let nonascii = formatted.chars().any(|c| c as u32 >= 0x80);
         ctx.class_if(nonascii, "non-ascii-survives");
         Outcome::Pass { nontrivial: nonascii || !bom.is_empty() }
